@@ -20,7 +20,7 @@ RULE = ('A case = initial data (3 parents, 4 children, 3 tags, links) + a reader
         'concurrent change, then count()/len()/is_empty()/in). Oracle: for every (object, non-volatile '
         'attribute) and every collection that has been completely loaded and observed (len or iteration), each later read by the '
         'same session (attribute, len, iteration, and for such collections count / in / is_empty / bool) equals the first '
-        'observation (an attribute the session assigned itself counts as observed with the assigned value from then on); a read may instead raise UnrepeatableReadError (or a lock error); an internal error (AssertionError, '
+        'observation (an attribute the session assigned itself counts as observed with the assigned value from then on); a read may instead raise UnrepeatableReadError (or a lock error) -- in half of the cases the reader catches that error per operation and keeps using the session, and everything above still holds afterwards; an internal error (AssertionError, '
         'KeyError, ...) from inside Pony is a violation; the two ends of the one-to-many relationship shown to the session agree '
         '(child in parent.kids by iteration / in  <=>  child.p is that parent, unless the child row was deleted meanwhile). Non-trivial = the committed value behind an observed key changed after '
         'its first observation and the reader read it again afterwards or was stopped by UnrepeatableReadError; distinct by case hash.')
@@ -79,7 +79,8 @@ def _strategies():
 
 def case_strategy():
     st, c, rop, wop, data, layout, schedule = _strategies()
-    reader = st.fixed_dictionaries({'session': st.just({}), 'ops': st.lists(rop, min_size=3, max_size=9), 'end': st.just('commit')})
+    reader = st.fixed_dictionaries({'session': st.just({}), 'ops': st.lists(rop, min_size=3, max_size=9), 'end': st.just('commit'),
+                                    'catch': st.booleans()})
     writer = st.fixed_dictionaries({'session': st.just({}), 'ops': st.lists(wop, min_size=1, max_size=5), 'end': st.just('commit')})
     return st.builds(lambda lay, d, r, ws, sch: {'layout': lay, 'data': d, 'actors': [r] + ws, 'schedule': sch},
                      layout, data, reader, st.lists(writer, min_size=1, max_size=2), schedule)
@@ -132,7 +133,8 @@ def race_strategy():
         refetch = draw(st.lists(st.tuples(st.just('query'), st.sampled_from(kinds), st.just(a), c).map(list), max_size=1)) + refetch
         reader_ops = pre + obs + draw(rfill) + refetch + [['reread', 0, 0, 0]] + draw(rfill)
         writer_ops = draw(wfill) + [change] + draw(wfill)
-        actors = [{'session': {}, 'ops': reader_ops, 'end': 'commit'}, {'session': {}, 'ops': writer_ops, 'end': 'commit'}]
+        actors = [{'session': {}, 'ops': reader_ops + ([['reread', 0, 0, 0]] if draw(st.booleans()) else []), 'end': 'commit',
+                   'catch': draw(st.booleans())}, {'session': {}, 'ops': writer_ops, 'end': 'commit'}]
         sch = [0] * (len(pre) + len(obs)) + [1] * (len(writer_ops) + 1) + [0] * (len(reader_ops) + 1)
         if draw(st.integers(0, 3)) == 0:
             actors.append({'session': {}, 'ops': draw(st.lists(wop, min_size=1, max_size=4)), 'end': 'commit'})
@@ -182,7 +184,8 @@ def batch_strategy():
         for pos, val in draw(st.lists(st.tuples(st.integers(0, len(sch) - 1), st.integers(0, 1)), max_size=2)):
             sch[pos] = val
         return {'layout': draw(layout), 'data': draw(data),
-                'actors': [{'session': {}, 'ops': reader_ops, 'end': 'commit'}, {'session': {}, 'ops': writer_ops, 'end': 'commit'}],
+                'actors': [{'session': {}, 'ops': reader_ops, 'end': 'commit', 'catch': draw(st.booleans())},
+                           {'session': {}, 'ops': writer_ops, 'end': 'commit'}],
                 'schedule': sch}
     return build()
 
@@ -259,7 +262,8 @@ def move_strategy():
         ends = list(ends)[:draw(st.integers(2, 3))]
         reader_ops = know + partial + refetch + ends + draw(st.lists(rop, max_size=1))
         writer_ops = [move] + draw(st.lists(wop, max_size=1))
-        actors = [{'session': {}, 'ops': reader_ops, 'end': 'commit'}, {'session': {}, 'ops': writer_ops, 'end': 'commit'}]
+        actors = [{'session': {}, 'ops': reader_ops, 'end': 'commit', 'catch': draw(st.booleans())},
+                  {'session': {}, 'ops': writer_ops, 'end': 'commit'}]
         sch = [0] * (len(know) + len(partial)) + [1] * (len(writer_ops) + 1) + [0] * (len(reader_ops) + 1)
         for pos, val in draw(st.lists(st.tuples(st.integers(0, len(sch) - 1), st.integers(0, 1)), max_size=2)):
             sch[pos] = val
